@@ -78,7 +78,7 @@ CLAIMED["C15"] = ("(a) kind-set dataflow over sexp_equalp_bound and hash_one: th
     "are disjoint from the tags whose raw trailing bytes hash_one hashes (otherwise equal? values hash differently); (b) both recursions "
     "pass through a verified depth bound (termination on deep/cyclic data); (c) hash_one folds a machine word into the hash only for "
     "immediates; (d) the C hash-table primitives update the size slot exactly where they link/unlink an entry; (e) sexp_equalp_bound writes "
-    "every recursive result back into its work budget; (f) hash_one and sexp_equalp_bound read the same type-table columns to decide which slots take part. Necessary conditions of hash/equal? coherence; hash-table "
+    "every recursive result back into its work budget; (f) hash_one and sexp_equalp_bound read the same type-table columns to decide which slots take part; (g) a bucket-chain walk of lib/srfi/69/hash.c that advances through a field of the current cell is not reached by a store to that field of its cursor. Necessary conditions of hash/equal? coherence; hash-table "
     "histories are not decided.",
     "sibling agreement by kind-set dataflow probes (tags reaching the semantic-compare returns vs. tags reaching the raw-byte hashing statements); call-graph SCC depth-bound verification",
     "3 C15")
@@ -93,7 +93,7 @@ CLAIMED["C03"] = ("Agreement clauses between the compiler's cooperating parts: (
 CLAIMED["C09"] = ("Structural clauses on simplify.c: (a) simplify/usedp walker agreement; (b) kind-set dataflow: the literal replacing a folded "
     "application is built only where the fold result cannot be an exception, and the fold runs through sexp_apply_no_err_handler, which clears every handler source it saves before applying (b2); "
     "(c) let-constant propagation is dominated by the not-in-set-variables test; (d) taint: no value unwrapped from a literal node and no "
-    "result of unchecked fixnum arithmetic reaches an AST slot or the returned AST; (e) set-variable membership tests pair a name with the sv list of the lambda that binds it. Necessary conditions of 'simplification preserves meaning'; "
+    "result of unchecked fixnum arithmetic reaches an AST slot or the returned AST; (e) set-variable membership tests pair a name with the sv list of the lambda that binds it; (f) the constant fold of `if` compares the simplified test itself with #f only where it cannot be a literal node (a Lit node wraps the value and is never #f). Necessary conditions of 'simplification preserves meaning'; "
     "result equality across builds and the 128-bit emulation are not decided.",
     "walker field-set agreement; kind-set dataflow probe at the literal construction; edge-dominance of the guard over the substitution push",
     "3 C09")
